@@ -24,7 +24,7 @@ for p in props:
         })
     else:
         na.append({"property_id": pid, "reason": legs.NOT_CLAIMED.get(pid, "check not built yet in this round (design in DESIGN.md section 6); it will be claimed once its monitor is silent on the unchanged tree")})
-hooks = subprocess.run(["git", "-C", "/repo", "log", "--format=%h", "--grep=^verif_hooks"], capture_output=True, text=True).stdout.split()
+hooks = subprocess.run(["git", "-C", "/repo", "log", "--format=%h", "--grep=^verif[_ ]hooks"], capture_output=True, text=True).stdout.split()
 man = {
     "version": 1,
     "setup_cmd": "./check setup",
